@@ -38,7 +38,8 @@ def load_known():
             if "key" in e:
                 out[e["key"]] = e
             else:
-                out[("site", e["property"], e["sub"])] = e
+                for prop in [e["property"]] + list(e.get("also", [])):
+                    out[("site", prop, e["sub"])] = e
     return out
 
 
